@@ -65,6 +65,13 @@ def defs(ind: str, doc: Optional[str], name: str = 'X') -> Dict[str, str]:
         'deco_other': f'{ind}def deco0{X}(f): return f\n{ind}@deco0{X}\n{ind}def {X}(a):\n{body}{P}',
         'lambda': f'{ind}{X} = lambda a: a\n',
         'async_static': f'{ind}@staticmethod\n{ind}async def {X}(a):\n{body}{P}',
+        # coroutines whose body holds a yield that is not theirs (nested def / lambda / class), and an async generator (its own yield)
+        'adef-nested-gen': f'{ind}async def {X}(a):\n{body}{ind}    def gen0(): yield 1\n{ind}    return [v for v in gen0()]\n',
+        'adef-lambda-gen': f'{ind}async def {X}(a):\n{body}{ind}    g0 = lambda: (yield)\n{ind}    return g0\n',
+        'adef-class-gen': f'{ind}async def {X}(a):\n{body}{ind}    class L0:\n{ind}        def it(self): yield from ()\n{ind}    return L0\n',
+        'adef-await': f'{ind}async def {X}(a):\n{body}{ind}    await a\n{ind}    async with a: pass\n{ind}    async for _ in a: pass\n',
+        'agen': f'{ind}async def {X}(a):\n{body}{ind}    yield 1\n',
+        'gen': f'{ind}def {X}(a):\n{body}{ind}    yield 1\n',
         'class_kw': f'{ind}class {X}(object, metaclass=type):\n{body}{P}',
         'prop-then-string': f'{ind}@property\n{ind}def {X}(self):\n{body}{ind}    return 1\n{ind}"a stray string after the property"\n',
         'targets-list': f'{ind}[{X}, H0{X}] = 1, 2\n',
@@ -157,12 +164,17 @@ LITERALS = ['1', '-1', '1.5', '1j', "'s'", "b'b'", 'True', 'None', '[]', '[1, 2]
             '-1.5', '0', "''", '[1, 2.0]', '(1, 2, 3)', '[(1, 2)]', '{1: "a"}', '...', '1 + 2', "'a' 'b'", '[1, [2]]', 'not True']
 
 
+def declared_async(f: Any) -> bool:
+    # what pydoctor displays is the 'async' of the def statement: a coroutine function or an asynchronous generator function
+    return inspect.iscoroutinefunction(f) or inspect.isasyncgenfunction(f)
+
+
 def pykind(ns: Any, name: str) -> Optional[Tuple[str, Optional[str], bool]]:
     if name not in vars(ns):
         return None
     raw = vars(ns)[name]
     if isinstance(raw, staticmethod):
-        return 'STATIC_METHOD', raw.__func__.__doc__, inspect.iscoroutinefunction(raw.__func__)
+        return 'STATIC_METHOD', raw.__func__.__doc__, declared_async(raw.__func__)
     if isinstance(raw, classmethod):
         return 'CLASS_METHOD', raw.__func__.__doc__, False
     if isinstance(raw, property):
@@ -170,7 +182,7 @@ def pykind(ns: Any, name: str) -> Optional[Tuple[str, Optional[str], bool]]:
     if isinstance(raw, types.FunctionType):
         if raw.__name__ == '<lambda>':
             return 'ATTR', None, False
-        return ('METHOD' if isinstance(ns, type) else 'FUNCTION'), raw.__doc__, inspect.iscoroutinefunction(raw)
+        return ('METHOD' if isinstance(ns, type) else 'FUNCTION'), raw.__doc__, declared_async(raw)
     if isinstance(raw, type):
         return ('EXCEPTION' if issubclass(raw, BaseException) else 'CLASS'), raw.__doc__, False
     return 'ATTR', None, False
